@@ -198,6 +198,16 @@ def run(pid, tier, seed, replay=None):
                 continue
             violations.append(dict(kind="clause", clauses=sorted(set(f)), instance=descs[s["sid"]][0],
                                    hermitian_input=descs[s["sid"]][1], cls=c))
+    implicit_stage = None
+    if replay is None:
+        # non-Hermitian IMPLICIT mode ((R, L) pairs for the explicit subspaces only)
+        from . import core_implicit
+
+        v_, implicit_stage = core_implicit.related_stage(seed, 70_000, p, "C05", [dict(solver="direct", nonhermitian=True)],
+                                                         8 if quick else 80)
+        violations.extend(v_)
+        stats["states"] += implicit_stage["states"]
+        stats["transitions"] += implicit_stage["transitions"]
     control = None
     if replay is None and sessions:
         rng = common.rng_for(seed, pid, "control")
@@ -223,7 +233,7 @@ def run(pid, tier, seed, replay=None):
              "basis designation); each run with hermitian=False and validated by TLC against Trace_Similarity",
         classes=classes, sessions_in_known_finding_class_failing=len(known), mode_a=mode_a,
         crashes_on_wellposed_input=stats["crashes"], crash_examples=crash_examples, negative_control=control,
-        exhaustive=False)
+        implicit_mode_stage=implicit_stage, exhaustive=False)
     common.write_evidence(pid, tier, seed, coverage, time.time() - t0, len(violations),
                           ["reduction mod p is a ring homomorphism on the values the algorithm can produce",
                            "float runs use dyadic instances; values with >40-bit denominators are snapped within 1e-9",
